@@ -76,11 +76,23 @@ def c03_cli(ctx, res, entries, limit):
         e = entries[ix]
         name = "p%d.asm" % ix
         _write(os.path.join(d, name), e["source"])
+        if ix % 3 == 2:
+            # every third program goes through `lace compile` first: the loader's path to the same machine
+            obj = "p%d.lc3" % ix
+            c = lace(ctx, ["compile", name, obj] + feat(e), cwd=d)
+            if c.rc == 0:
+                r = lace(ctx, ["run", obj, "--minimal"] + feat(e), stdin=bytes(e["input"]), cwd=d)
+                return ix, r
         r = lace(ctx, ["run", name, "--minimal"] + feat(e), stdin=bytes(e["input"]), cwd=d)
         return ix, r
     for ix, r in pmap(one, range(min(limit, len(entries)))):
         e = entries[ix]
         name = "p%d.asm" % ix
+        if r.argv[1].endswith(".lc3"):
+            name = "p%d.lc3" % ix
+            res.cls("l2:run_object_file")
+            if e["image"] and e["image"][-1] == 0:
+                res.cls("l2:run_object_file_ending_in_zero_word")
         res.evaluations += 1
         res.cls("l2:run")
         want = expected_stdout(name, e).encode("utf-8")
@@ -101,6 +113,33 @@ def c03_cli(ctx, res, entries, limit):
             if b2 not in (r2, r2 + b"\n") and not (halted and b2 + b"\n" == r2) and body not in (ref_out, ref_out + b"\n"):
                 detail["program_output_seen"] = body.decode("utf-8", "replace")[-600:]
                 res.violate("C03/cli/stdout", "`lace run --minimal` prints different program output than the reference machine", detail)
+
+
+def c03_objects(ctx, res):
+    """Object files whose last words are zero, run through the loader: the implicit HALT stands behind
+    the last word of the file, whatever that word is."""
+    d = _dir(ctx, "c03obj")
+    progs = [("lea r0 m\nputs\nhalt\nm .stringz \"Hi\"\n", b"Hi"),
+             ("ld r1 z\nbrz ok\nlea r0 bad\nputs\nhalt\nok lea r0 good\nputs\nhalt\nbad .stringz \"B\"\ngood .stringz \"G\"\nz .fill #0\n", b"G"),
+             (".orig x4000\nlea r0 m\nputs\nld r2 pad\nbrnp no\nlea r0 y\nputs\nno halt\nm .stringz \"a\"\ny .stringz \"y\"\npad .blkw #3\n", b"ay"),
+             ("and r0 r0 #0\nadd r0 r0 #7\nputn\nhalt\nbuf .blkw #40\n", b"7")]
+    for k, (src, want) in enumerate(progs):
+        for ext in ("lc3", "obj"):
+            name, obj = "o%d.asm" % k, "o%d.%s" % (k, ext)
+            _write(os.path.join(d, name), src)
+            c = lace(ctx, ["compile", name, obj], cwd=d)
+            ra = lace(ctx, ["run", name, "--minimal"], cwd=d)
+            ro = lace(ctx, ["run", obj, "--minimal"], cwd=d)
+            res.evaluations += 1
+            res.cls("l2:object_ending_in_zero_words")
+            detail = {"source": src, "compile": c.brief(), "run_source": ra.brief(), "run_object": ro.brief(), "expected_program_output": want.decode()}
+            for which, r in (("source", ra), ("object file", ro)):
+                body, _ = program_output(r.out)
+                if r.rc != 0 or body.strip() != want:
+                    res.violate("C03/cli/object-ending-in-zero-words", "running the %s prints %r (exit %s), the reference machine prints %r and halts"
+                                % (which, body.decode("utf-8", "replace"), r.rc, want.decode()), detail)
+                    break
+    res.require(["l2:object_ending_in_zero_words", "l2:run_object_file"], "L2")
 
 
 # ------------------------------------------------------------------ C06
@@ -371,6 +410,13 @@ def c07(ctx, res):
         cases.append((text, False, "reason:operand_range"))
     for text in ("push r0\n", "pop r1\nhalt\n", "call f\nhalt\nf rets\n", "rets\n", "PUSH R0\n"):
         cases.append((text, False, "reason:stack_extension_off"))
+    # sources that produce no word at all
+    for text in ("", "\n", "; only a comment\n", ".orig x3000\n", ".orig x3000\n.end\n", ".end\n", ".break\n", ".blkw #0\n", ".end\nhalt\n", "   \n\t\n"):
+        cases.append((text, False, "empty_program"))
+    # the feature flag written in front of the subcommand (`lace -f stack check x.asm`): whatever it
+    # means there, it means the same to check, compile and run
+    for text in ("push r0\npop r1\nhalt\n", "call f\nhalt\nf rets\n", "add r0 r0 #1\nhalt\n", "PUSH R1\n"):
+        cases.append((text, "front", "flag_before_subcommand"))
     for text in cp["fuzz"][:120 if not ctx.thorough() else 2000]:
         cases.append((text, False, "fuzz"))
         if any(m in text.lower() for m in ("push", "pop", "call", "rets")):
@@ -381,6 +427,12 @@ def c07(ctx, res):
         name = "s%d.asm" % ix
         _write(os.path.join(d, name), src)
         f = ["-f", "stack"] if stack else []
+        if stack == "front":
+            g = ["-f", "stack"]
+            chk = lace(ctx, g + ["check", name], cwd=d)
+            cmpl = lace(ctx, g + ["compile", name, "s%d.lc3" % ix], cwd=d)
+            run = lace(ctx, g + ["run", name, "--minimal"], cwd=d, stdin=b"", timeout=6)
+            return ix, chk, cmpl, run
         chk = lace(ctx, ["check", name] + f, cwd=d)
         cmpl = lace(ctx, ["compile", name, "s%d.lc3" % ix] + f, cwd=d)
         run = lace(ctx, ["run", name, "--minimal"] + f, cwd=d, stdin=b"", timeout=6)
@@ -390,7 +442,7 @@ def c07(ctx, res):
         res.evaluations += 1
         res.distinct += 1
         res.cls("tag:" + tag.split(":")[0])
-        res.cls("flag:" + ("stack" if stack else "none"))
+        res.cls("flag:" + ("before_subcommand" if stack == "front" else "stack" if stack else "none"))
         oc, om = outcome(chk), outcome(cmpl)
         detail = {"source": src[-1500:], "stack_flag": stack, "tag": tag, "check": chk.brief(), "compile": cmpl.brief()}
         if "crash" in (oc, om):
@@ -420,7 +472,7 @@ def c07(ctx, res):
         if ix % 40 == 0:
             res.samples.append({"source": src[:400], "stack_flag": stack, "check": oc, "compile": om, "run_exit": run.rc})
     res.require(["tag:emit_fail", "tag:mixed", "tag:valid", "tag:top_of_memory", "tag:stack_ext_without_flag", "flag:stack", "flag:none",
-                 "both_accept", "both_reject", "emit_fail_minimal_program", "tag:fuzz"]
+                 "both_accept", "both_reject", "emit_fail_minimal_program", "tag:fuzz", "tag:empty_program", "tag:flag_before_subcommand"]
                 + ["both_reject:" + r for r in ("undefined_label", "origin_twice", "duplicate_or_bad_label", "syntax", "directive_operand",
                                                 "lexical", "operand_range", "stack_extension_off")] + ["emit_fail_form:" + f for f in ("BR", "LD", "LDI", "LEA", "ST", "STI", "JSR", "CALL")], "L2")
     # ---- watch: every re-check equals a fresh check
@@ -567,16 +619,30 @@ def c04_cli(ctx, res):
     cp = corpus(ctx)
     d = _dir(ctx, "c04")
     cases = cp["mixed"][:80 if not ctx.thorough() else 1500]
+    # sources whose only fault is a label out of reach of its field (found when words are emitted)
+    cases = cases + [{"source": e["source"], "uses_stack_ext": e["stack"], "verdict": "reject", "tag": "label_out_of_reach:" + e["form"], "image": None}
+                     for e in cp["emit_fail"][:40 if not ctx.thorough() else 400]]
 
     def one(ix):
         e = cases[ix]
         name = "m%d.asm" % ix
         _write(os.path.join(d, name), e["source"])
         f = ["-f", "stack"] if e["uses_stack_ext"] else []
-        return ix, lace(ctx, ["compile", name, "m%d.lc3" % ix] + f, cwd=d)
-    for ix, r in pmap(one, range(len(cases))):
+        return ix, lace(ctx, ["compile", name, "m%d.lc3" % ix] + f, cwd=d), lace(ctx, ["check", name] + f, cwd=d)
+    for ix, r, chk in pmap(one, range(len(cases))):
         e = cases[ix]
         res.evaluations += 1
+        # `lace check` is the same acceptance question asked without writing anything
+        res.cls("l2:check:" + e["verdict"])
+        if e["tag"].startswith("label_out_of_reach"):
+            res.cls("l2:label_out_of_reach")
+        cdetail = dict(chk.brief(), source=e["source"][-800:], reference_verdict=e["verdict"], tag=e["tag"])
+        if chk.rc is None or chk.crashed:
+            res.violate("C04/cli/crash", "`lace check` crashed (exit %s)" % chk.rc, cdetail)
+        elif e["verdict"] == "reject" and chk.rc == 0:
+            res.violate("C04/cli/check-accepted-invalid", "`lace check` reports success for a program the reference predicate rejects", cdetail)
+        elif e["verdict"] == "accept" and chk.rc != 0:
+            res.violate("C04/cli/check-rejected-valid", "`lace check` rejects a program whose operands all fit", cdetail)
         res.cls("l2:compile:" + e["verdict"])
         obj = os.path.join(d, "m%d.lc3" % ix)
         detail = dict(r.brief(), source=e["source"][-800:], reference_verdict=e["verdict"], tag=e["tag"])
@@ -591,7 +657,7 @@ def c04_cli(ctx, res):
             if not os.path.exists(obj) or open(obj, "rb").read() != want:
                 res.violate("C04/cli/image", "`lace compile` accepted the program but did not write the reference image", detail)
     watch_history(ctx, res, cp, "C04", 40)
-    res.require(["l2:compile:accept", "l2:compile:reject", "watch_recheck"], "L2")
+    res.require(["l2:compile:accept", "l2:compile:reject", "l2:check:accept", "l2:check:reject", "l2:label_out_of_reach", "watch_recheck"], "L2")
 
 
 # ------------------------------------------------------------------ C08
@@ -846,11 +912,21 @@ def c14_transport(ctx, res):
     n_scripts = 20 if not ctx.thorough() else 300
     jobs = []
     scripts = []
+    # fixed scripts first: every character width (1-4 bytes of UTF-8, the last code point, combining marks)
+    # in echo text, in an argument and as a command name, and every line-length class
+    fixed = [["echo a\u00e9b", "echo \u20acuro", "echo \U0001F34B", "echo \U00010000|\U0010FFFF", "echo e\u0301", "registers", "exit"],
+             ["print \U0001F34B", "\U0001F34B", "\u00e9 r0", "move r1 \U0001D11E", "echo ok", "print r1", "quit"],
+             ["echo " + "long line " * 9, "echo " + "\U0001F34B" * 40, "print" + " " * 130 + "r2", "echo " + "y" * 1100, "exit"],
+             ["", " ", ";", "echo ;", "echo x", "exit"]]
     for si in range(n_scripts):
+        if si < len(fixed):
+            scripts.append(fixed[si])
+            continue
         k = rnd.randrange(1, 7)
         cmds = [rnd.choice(pool) for _ in range(k)]
         cmds.append(rnd.choice(["exit", "quit", "q", "continue", "x", "r", "s", "c", "bl", "registers", "p r0"]))
         scripts.append(cmds)
+        cmds = scripts[si]
         variants = []
         for cut in range(0, len(cmds) + 1):
             for sa in (";", "\n"):
@@ -924,7 +1000,8 @@ def c16_cli(ctx, res):
         _write(os.path.join(d, n), t)
     endings = ["step", "continue", "// note", "step // note", "continue //", "//", "# note", "-- note", "; ", ";", ";;", "step;",
                "si 3 ;", "\"", "'", "\\", " ", "\t", "\r", "quit //", "\x00", "\u00e9", "echo //", "/* c */", "/", "step /", "registers\r"]
-    prefixes = ["", "step\n", "continue\n", "break add ^1\ncontinue\n"]
+    prefixes = ["", "step\n", "continue\n", "break add ^1\ncontinue\n", "assembly x0000\nassembly x2fff\nprint x0\n",
+                "break add ^2\nbreak add ^0\nbreak add ^1\nbreak add ^1\nbreak list\n", "assembly\nassembly xFFFF\ncontinue\nassembly\n"]
     jobs = []
     for pn in progs:
         for ei, end in enumerate(endings):
@@ -977,6 +1054,45 @@ def c16_cli(ctx, res):
             res.cls("l2:session_terminated")
     res.require(["l2:session_through_real_reader:stdin", "l2:session_through_real_reader:arg", "l2:script_without_final_newline",
                  "l2:session_terminated", "l2:program:halts", "l2:program:runs_off", "l2:program:jumps_low", "l2:program:to_ffff"], "L2")
+
+
+# ------------------------------------------------------------------ C17 (L2: what the user reads)
+
+def c17_cli(ctx, res):
+    """`assembly <address>` at the CLI, in minimal mode: the lines that reach standard error, after
+    every output filter, against the statement text recorded by the renderer."""
+    cp = corpus(ctx)
+    entries = cp["listing"]
+    d = _dir(ctx, "c17")
+
+    def one(ix):
+        e = entries[ix]
+        name = "l%d.asm" % ix
+        _write(os.path.join(d, name), e["source"])
+        addrs = list(range(e["origin"], e["origin"] + len(e["texts"])))
+        script = ";".join("assembly x%04x" % a for a in addrs)
+        r = lace(ctx, ["debug", name, "--minimal", "--command", script + ";exit"] + feat(e), cwd=d, timeout=30)
+        return ix, r
+    for ix, r in pmap(one, range(len(entries))):
+        e = entries[ix]
+        res.evaluations += len(e["texts"])
+        res.cls("l2:listing_program")
+        want = "".join(t + "\n" for t in e["texts"])
+        got = r.err.decode("utf-8", "replace")
+        if "\t" in want:
+            res.cls("l2:listing_statement_with_tab")
+        if any(ord(c) > 127 for c in want):
+            res.cls("l2:listing_statement_multibyte")
+        if r.rc is None or r.crashed:
+            res.violate("C17/cli/crash", "`lace debug` crashed (exit %s)" % r.rc, dict(r.brief(), source=e["source"]))
+        elif got != want:
+            wl, gl = want.split("\n"), got.split("\n")
+            k = next((i for i in range(min(len(wl), len(gl))) if wl[i] != gl[i]), min(len(wl), len(gl)))
+            res.violate("C17/cli/assembly-text",
+                        "`assembly x%04x` shows %r at the CLI, the statement text is %r"
+                        % (e["origin"] + k, gl[k] if k < len(gl) else None, wl[k] if k < len(wl) else None),
+                        dict(r.brief(), source=e["source"], expected_stderr=want[-800:]))
+    res.require(["l2:listing_program", "l2:listing_statement_with_tab"], "L2")
 
 
 # ------------------------------------------------------------------ C18
@@ -1058,11 +1174,40 @@ def c18_cli(ctx, res):
             res.violate("C18/cli/behaviour-depends-on-flag/" + which.replace(" ", "-"),
                         "a program using none of the four mnemonics gives a different %s under `lace run` with `-f stack`" % which,
                         {"source": e["source"][-800:], "flag_off": off.brief(), "flag_on": on.brief()})
+    # every subcommand that assembles or runs takes the flag: `debug` with an empty script and end of
+    # input behaves like `run` (C09), so an extension program must assemble and run there too
+    extp = "and r0 r0 #0\nadd r0 r0 #5\npush r0\ncall f\npop r1\nadd r1 r1 #0\nputn\nhalt\nf add r0 r0 #1\nrets\n"
+    _write(os.path.join(d, "ext.asm"), extp)
+    for sub, extra in (("run", []), ("debug", ["--command", "continue"]), ("debug", []), ("check", []), ("compile", [])):
+        args = [sub, "ext.asm"] + (["ext_%s.lc3" % sub] if sub == "compile" else []) + (["--minimal"] if sub in ("run", "debug") else []) + extra
+        on = lace(ctx, args + ["-f", "stack"], cwd=d, stdin=b"")
+        off = lace(ctx, args, cwd=d, stdin=b"")
+        res.evaluations += 1
+        res.cls("l2:extension_program_under:" + sub)
+        detail = {"source": extp, "subcommand": sub, "flag_on": on.brief(), "flag_off": off.brief()}
+        if on.rc != 0 or (sub in ("run", "debug") and b"6" not in on.out):
+            res.violate("C18/cli/flag-on-not-honoured/" + sub, "`lace %s ... -f stack` does not assemble and execute a program using the extension (exit %s)" % (sub, on.rc), detail)
+        if off.rc == 0 or off.crashed or b"stack" not in (off.err + off.out):
+            res.violate("C18/cli/flag-off-not-rejected/" + sub, "`lace %s` without the flag: exit %s, diagnostic naming the feature expected" % (sub, off.rc), detail)
+    # a plain program that prints its registers (REG) after moving R7, in both output modes
+    regp = "jsr f\nreg\nhalt\nf add r1 r1 #3\nret\n"
+    _write(os.path.join(d, "regs.asm"), regp)
+    for mode in ([], ["--minimal"]):
+        for sub, extra in (("run", []), ("debug", ["--command", "step;registers;continue"])):
+            on = lace(ctx, [sub, "regs.asm"] + mode + extra + ["-f", "stack"], cwd=d, stdin=b"")
+            off = lace(ctx, [sub, "regs.asm"] + mode + extra, cwd=d, stdin=b"")
+            res.evaluations += 1
+            res.cls("l2:plain_program_prints_registers")
+            if (on.rc, on.out, on.err) != (off.rc, off.out, off.err):
+                which = "exit status" if off.rc != on.rc else ("stdout" if off.out != on.out else "stderr")
+                res.violate("C18/cli/behaviour-depends-on-flag/" + which.replace(" ", "-"),
+                            "a program using none of the four mnemonics gives a different %s under `lace %s%s` with `-f stack`" % (which, sub, " --minimal" if mode else ""),
+                            {"source": regp, "flag_off": off.brief(), "flag_on": on.brief()})
     # `lace watch` keeps one process (and one feature setting) across re-checks
     watch_history(ctx, res, cp, "C18", 60, stack=True)
     watch_history(ctx, res, cp, "C18", 61, ext_sources=True)
     res.require(["l2:ext_program", "l2:plain_program", "l2:raw_0xD", "l2:plain_program_run", "l2:plain_program_run_r7_changed",
-                 "watch_recheck", "watch_recheck_with_stack_flag"], "L2")
+                 "watch_recheck", "watch_recheck_with_stack_flag", "l2:extension_program_under:debug", "l2:plain_program_prints_registers"], "L2")
 
 
 # ------------------------------------------------------------------ C09 (L2 sample)
@@ -1099,9 +1244,10 @@ def c09_cli(ctx, res, limit):
         if reads_input and ix % 2 == 1:
             # the script itself arrives on standard input, one command per line, ending in `quit`; the
             # bytes behind that line are the program's input: the debugger must leave them alone
-            script = "\n".join(cmds)
-            dbg = lace(ctx, args, stdin=script.encode() + b"\n" + stdin, cwd=d, timeout=30)
-            return ix, "(stdin) " + script, plain, dbg
+            nl = "\r\n" if ix % 4 == 3 else "\n"   # scripts written on another system end their lines in CR LF
+            script = nl.join(cmds)
+            dbg = lace(ctx, args, stdin=script.encode() + nl.encode() + stdin, cwd=d, timeout=30)
+            return ix, ("(stdin, CRLF) " if nl != "\n" else "(stdin) ") + script, plain, dbg
         if script:
             args += ["--command", script]
         dbg = lace(ctx, args, stdin=stdin, cwd=d, timeout=30)
@@ -1112,8 +1258,10 @@ def c09_cli(ctx, res, limit):
         res.cls("l2:debug_vs_run")
         if e["input"]:
             res.cls("l2:debug_vs_run_with_program_input")
-            if script.startswith("(stdin) "):
+            if script.startswith("(stdin"):
                 res.cls("l2:script_and_program_input_share_stdin")
+            if script.startswith("(stdin, CRLF)"):
+                res.cls("l2:script_with_crlf_line_endings")
         detail = {"source": e["source"][-800:], "script": script, "stdin": e["input"], "plain": plain.brief(), "debugged": dbg.brief()}
         if dbg.rc is None or dbg.crashed:
             res.violate("C09/cli/crash", "`lace debug` crashed or hung (exit %s) where `lace run` exits %s" % (dbg.rc, plain.rc), detail)
